@@ -148,6 +148,32 @@ def run_tlc(module, cfg=None, cwd=None, workers=None, timeout=1200, extra=(), en
     return r
 
 
+class OperationDidNotTerminate(Exception):
+    """Raised by the harness watchdog (never by the library): a call did not return in time."""
+
+
+class deadline:
+    """with deadline(5): call_library()  - CPU-time watchdog; use in the main thread of a (forked) worker only."""
+
+    def __init__(self, seconds=5):
+        self.seconds = seconds
+
+    def __enter__(self):
+        import signal
+
+        def on_alarm(signum, frame):
+            raise OperationDidNotTerminate(f"still running after {self.seconds}s of CPU time")
+        # CPU time of this process (ITIMER_VIRTUAL), not wall-clock: a loaded machine must never look like a hang
+        self.old = signal.signal(signal.SIGVTALRM, on_alarm)
+        signal.setitimer(signal.ITIMER_VIRTUAL, self.seconds)
+
+    def __exit__(self, *exc):
+        import signal
+        signal.setitimer(signal.ITIMER_VIRTUAL, 0)
+        signal.signal(signal.SIGVTALRM, self.old)
+        return False
+
+
 # --------------------------------------------------------------------------- findings
 
 def load_known_findings():
